@@ -38,12 +38,18 @@ func (c stratCfg) String() string {
 	return fmt.Sprintf("strategy=%s conc=%d queues=[%s] interleaved=%d lateBinds=%v closes=%v deqFaults=%v", stratNames[c.Strategy], c.Conc, strings.Join(ks, " "), len(c.Adds), c.Binds, c.Closes, c.Faults)
 }
 
+// stratAdapters: only adapter-backed queues, always with refused dequeues (C11)
+var stratAdapters bool
+
 func drawStrat(r *Rng) stratCfg {
 	c := stratCfg{Strategy: r.Intn(3), Conc: Pick(r, 1, 1, 1, 2, 3, 4)}
 	nq := 2 + r.Intn(5)
 	total := 0
 	for i := 0; i < nq; i++ {
 		k := QK(r.Intn(6))
+		if stratAdapters {
+			k = Pick(r, QPers, QPersPrio, QDist, QDistPrio)
+		}
 		c.Kinds = append(c.Kinds, k)
 		n := Pick(r, 0, 1, 2, 3, 5, 8, 12)
 		var pr []int
@@ -74,7 +80,7 @@ func drawStrat(r *Rng) stratCfg {
 			c.Closes = append(c.Closes, [2]int{r.Intn(total), r.Intn(nq)})
 		}
 	}
-	if r.Chance(25) {
+	if r.Chance(25) || stratAdapters {
 		// a backend hiccup on one queue: the dispatcher goes on with the others and comes back
 		for qi, k := range c.Kinds {
 			if k.Adapter() && len(c.Pop[qi]) > 0 && r.Chance(60) {
@@ -380,6 +386,20 @@ func epStrat(c *RunCtx, cfg stratCfg) *Result {
 			synctest.Wait()
 			ok = observe(fmt.Sprintf("dispatch %d", dispatched+1))
 		}
+		// every delivery was acknowledged on the adapter that made it, once
+		for qi, q := range qs {
+			if q.Led == nil {
+				continue
+			}
+			for _, pr := range q.Led.ProblemsCopy() {
+				e.Fail("C11", "bad-ack", "multi-queue/"+strings.Fields(pr)[0], fmt.Sprintf("%s: adapter of queue %d: %s", cfg, qi, pr))
+			}
+			if ok {
+				if p, u, _ := q.Led.State(); p != 0 || u != 0 {
+					e.Fail("C11", "unacked-left", "multi-queue", fmt.Sprintf("%s: adapter of queue %d holds pending=%d unacknowledged=%d after everything ran", cfg, qi, p, u))
+				}
+			}
+		}
 		if ok {
 			for _, r := range k.Recs[:next] {
 				if r.Runs.Load() != 1 {
@@ -416,6 +436,17 @@ func epStrat(c *RunCtx, cfg stratCfg) *Result {
 		e.Fail(c.Prop, "harness-panic", "", out.Msg+"\n"+out.Stacks)
 	}
 	return e.Result(k.Sample(cfg.String()))
+}
+
+func stratAdapterPrograms(c *RunCtx, nq, nt int) {
+	for v := 0; v < c.Q(nq, nt); v++ {
+		c.Program(fmt.Sprintf("strategy-adapters/%d", v), func(p *Prog) {
+			stratAdapters = true
+			cfg := drawStrat(p.Rng)
+			stratAdapters = false
+			p.Explore(func(pl Plan) *Result { return epStrat(c, cfg) }, ExploreOpts{Base: 2})
+		})
+	}
 }
 
 func runC15(c *RunCtx) {
